@@ -23,7 +23,10 @@ use prost::{DecodeError, Message};
 use crate::proto::command::ListenersCount;
 
 pub const MAX_FDS_OUT: usize = 200;
-pub const MAX_BYTES_OUT: usize = 4096;
+/// Size of the buffer the listeners manifest is received in. It has to hold the
+/// addresses of `MAX_FDS_OUT` listeners: the longest `SocketAddr` text (IPv6
+/// with scope id and port) is 58 bytes, plus 2 bytes of protobuf framing each.
+pub const MAX_BYTES_OUT: usize = MAX_FDS_OUT * 64;
 
 #[derive(thiserror::Error, Debug)]
 pub enum ScmSocketError {
